@@ -70,6 +70,12 @@ func (c16) Gen(r *sim.Rand, tier string, run uint64) *sim.Scenario {
 	if baseSet && basePos == 0 {
 		out = append(out, sim.Op{K: "setbase", N: []int64{int64(base)}})
 	}
+	if basePos == 1 && r.Chance(1, 2) {
+		// the original already has a base (nothing emitted yet) and the tail re-bases, upwards
+		// or downwards: SetBase twice in a row on the direct emitter
+		b0 := int64(sim.PickInt(r, int(base)+0x800000, int(base)+0x100, int(base)+4, int(base)-0x40, int(base)-2, int(base)+0x10000, 0xFFFF00)) & 0xFFFFFF
+		out = append(out, sim.Op{K: "setbase", N: []int64{b0}})
+	}
 	if basePos == 1 {
 		// nothing may have been emitted before: keep only directives in the head
 		n := 0
